@@ -413,4 +413,26 @@ Section Trav.
       exists b'. rewrite Ei. apply sfrom_split. exact Na. }
     destruct Hs as [c Es]. exists a, b, c. rewrite E at 1. rewrite Ep, Es. rewrite <- app_assoc. reflexivity.
   Qed.
+
+  (* the same, from the invariant alone (used for the machine in CLConcProj.v) *)
+  Lemma order_from_TInv ids0 st w nd :
+    TInv ids0 st -> tcur st = Some w -> nth_error (heap (tg st)) w = Some nd -> GenCL.visit_cond (ctr nd) capt = true ->
+    forall v, In v (tvis st) -> In v (tids st) -> v <> w -> precedes (tids st) v w.
+  Proof.
+    intros [G' Hcu Hlt Hnd Hbeh Hcond Hseen Htodo] Hcur Hn Hv v Hvv Hvi Hne.
+    assert (Hl : live nd) by (apply visit_cond_live; exact Hv).
+    assert (Hw : In w (tids st)) by (eapply gi_live; eauto).
+    assert (Hfl : first_live (heap (tg st)) (tcur st) (Some w)) by (rewrite Hcur; eapply fl_live; eauto).
+    destruct (Hbeh _ Hfl v Hvv) as [A|[_ A]]; [|congruence].
+    unfold ahead in A. cbn [sfrom_o] in A.
+    destruct (sfrom_suffix w _ Hw) as [pre [E Nw]].
+    assert (Hvp : In v pre).
+    { rewrite E in Hvi. apply in_app_or in Hvi. destruct Hvi as [X|X]; [exact X|contradiction]. }
+    destruct (in_split _ _ Hvp) as [a [b Ep]].
+    assert (Hs : exists c, sfrom w (tids st) = w :: c).
+    { destruct (in_split _ _ Hw) as [a' [b' Ei]].
+      assert (Nd := gi_nodup _ _ G'). rewrite Ei in Nd. destruct (nodup_split_notin _ _ _ Nd) as [Na _].
+      exists b'. rewrite Ei. apply sfrom_split. exact Na. }
+    destruct Hs as [c Es]. exists a, b, c. rewrite E at 1. rewrite Ep, Es. rewrite <- app_assoc. reflexivity.
+  Qed.
 End Trav.
